@@ -22,6 +22,8 @@ Definition opcode (o : op) : Z :=
 Definition decode_op (z : list Z) : option op :=
   match z with
   | [0; f] => Some (Modify f)
+  | [0; f; _] => Some (Modify f)   (* harness flag: the functor is passed as a value-category aware rvalue;
+                                       modify applies its named parameter (an lvalue) twice, so nothing changes *)
   | [5; s] => Some (ReadHandle (Z.to_nat s))
   | [6; s] => Some (Release (Z.to_nat s))
   | [k; s] => if (1 <=? k) && (k <=? 4) then Some (LockShared k (Z.to_nat s)) else None
@@ -282,9 +284,14 @@ Fixpoint decode_prog (p : list (list Z)) : list op :=
   | z :: r => match decode_op z with Some o => o :: decode_prog r | None => decode_prog r end
   end.
 
+(* modelling assumption pinned to the source: the reader counters are unbounded here; the code's are
+   std::atomic<int>, which agrees as long as fewer than 2^31 readers are registered in one counter.
+   The driver prints numeric_limits<>::max() of the two counters' value type in the same line. *)
+Definition COUNTER_MAX : Z := 2147483647.
 Definition final (s : sys glob loc) : list line :=
   let g := gl s in
-  [[-2; enc (log (left g)); enc (log (right g)); b2z (rl g); b2z (cl g); lc g; rc g; Z.of_nat (faults g)]].
+  [[-2; enc (log (left g)); enc (log (right g)); b2z (rl g); b2z (cl g); lc g; rc g; Z.of_nat (faults g)];
+   [-2; COUNTER_MAX; COUNTER_MAX]].
 
 Definition run_case (cfg : list Z) (progs : list (list (list Z))) (sched : list (Z * Z)) : list line :=
   let ns := match cfg with n :: _ => Z.to_nat n | [] => O end in
